@@ -274,3 +274,68 @@ func VPairs(bidi bool) ([]int, []int) {
 	}
 	return keys, vals
 }
+
+// VMapAscHistory: a REAL history from the constructor that is long but cheap: n Puts of strictly ascending keys (one path:
+// every comparison is decided), then D arbitrary Put/Remove steps (symbolic keys and values, only the model is threaded
+// through), then one full observation. State that the representation invariant does not describe (caches of the
+// right-most leaf, of the minimum node, ...) evolves exactly as in real use, on trees of realistic size.
+func VMapAscHistory(m Map[int, int], kind VKind) {
+	n := v.Cfg("n")
+	keys, vals := make([]int, n), make([]int, n)
+	for i := 0; i < n; i++ {
+		keys[i], vals[i] = v.Int("ak"), v.Int("ax")
+		if i > 0 {
+			v.Assume(vl.Less(keys[i-1], keys[i]))
+		}
+	}
+	if v.CfgOr("desc", 0) == 1 { // descending insertion order
+		for i := n - 1; i >= 0; i-- {
+			m.Put(keys[i], vals[i])
+		}
+	} else {
+		for i := 0; i < n; i++ {
+			m.Put(keys[i], vals[i])
+		}
+	}
+	D := v.CfgOr("D", 3)
+	for i := 0; i < D; i++ {
+		k := v.Int("key")
+		if v.Bool("put") {
+			x := v.Int("val")
+			m.Put(k, x)
+			// the model stays sorted by key: insert at the position of k, or overwrite
+			if j := v.Split(vIdxK(keys, k), -1, len(keys)-1); j >= 0 {
+				vals = append([]int{}, vals...)
+				vals[j] = x
+			} else {
+				pos := 0
+				for pos < len(keys) && vl.Less(keys[pos], k) {
+					pos++
+				}
+				keys = append(append(append([]int{}, keys[:pos]...), k), keys[pos:]...)
+				vals = append(append(append([]int{}, vals[:pos]...), x), vals[pos:]...)
+			}
+		} else {
+			m.Remove(k)
+			if j := v.Split(vIdxK(keys, k), -1, len(keys)-1); j >= 0 {
+				keys, vals = vDrop(keys, vals, j)
+			}
+		}
+	}
+	kind.Inv()
+	gk, gv := m.Keys(), m.Values()
+	v.Assert(len(gk) == len(keys), "C01,C10:keys-length")
+	v.Assert(len(gv) == len(keys), "C01,C10:values-length")
+	v.Assert(m.Size() == len(keys), "C01,C10,C15:size")
+	if len(gk) == len(keys) && len(gv) == len(keys) {
+		for i := range keys {
+			v.Assert(vl.Equiv(gk[i], keys[i]), "C01,C02:keys-in-order")
+			v.Assert(gv[i] == vals[i], "C01:values-position-aligned")
+		}
+	}
+	for i := range keys { // every live key is found with its value
+		x, found := m.Get(keys[i])
+		v.Assert(found, "C01:get-found")
+		v.Assert(x == vals[i], "C01:get-value")
+	}
+}
